@@ -305,3 +305,155 @@ Theorem C06_select_source_is_model : forall nd mode seed ctl0 zidx,
   WaveEvalSrc.select_idx_src (Z.of_nat nd) (Z.of_nat mode) (Z.of_nat seed) (Z.of_nat ctl0) (Z.of_nat zidx) =
   Z.of_nat (select_idx KV.Proofs.WaveSelectSrc.pick2_src nd mode seed ctl0 zidx).
 Proof. exact KV.Proofs.WaveSelectSrc.select_idx_src_is_model. Qed.
+
+(** DRIVER CODE OF THE TIMING SIMULATOR, from the source text (round 4).  Gen/WaveDriversSrc.v is regenerated on every run from
+    wave_sim.py (and the index lists of sim.py) by translate/gen_wave_drivers.py: the GPU kernels wave_assign_gpu, ppo_to_ppi_gpu,
+    wave_eval_gpu, the launch prefix / write-back of wave_capture_gpu and the loop nest of level_eval_cpu are translated statement
+    by statement as the semantics of ONE instance (thread (x, y) / iteration (op_idx, sim)) on ONE lane (Model/WaveDrvPrelude.v
+    [lane] = the columns c[:, l], s[:, :, l], abuf[:, l], simctl_int[:, l]); every array access must be in the column of the
+    kernel's own lane variable.  The vectorised numpy statements of WaveSim.s_to_c / s_ppo_to_ppi, the loop of WaveSim.c_to_s, both
+    c_prop methods, the launching methods of WaveSimCuda and the index lists of SimOps.__init__ are pinned as exact syntax trees;
+    their per-lane meaning is stated in Model/WaveDrvPrelude.v (trusted). *)
+From KV Require Import Model.WaveDrvPrelude Gen.WaveDriversSrc.
+From KV Require Proofs.WaveLaneRun Proofs.WaveDriversProofs.
+
+(** lane independence of the WHOLE timing simulator: whatever instance function f (every translated kernel is one) and whatever
+    instance sequence, lane l afterwards = lane l's own instances, in their order, applied to lane l's initial columns; two
+    simulator states that agree on lane l still agree on lane l afterwards *)
+Theorem C06_kernels_lane_run : forall A (f : nat -> nat -> A -> A) ts st l,
+  nth_error (run_insts f ts st) l
+  = option_map (fun a => fold_left (fun a' y => f l y a') (KV.Proofs.WaveLaneRun.ys_of l ts) a) (nth_error st l).
+Proof. exact (@KV.Proofs.WaveLaneRun.run_insts_lane). Qed.
+Theorem C06_kernels_lane_local : forall A (f : nat -> nat -> A -> A) ts st1 st2 l,
+  nth_error st1 l = nth_error st2 l -> nth_error (run_insts f ts st1) l = nth_error (run_insts f ts st2) l.
+Proof. exact (@KV.Proofs.WaveLaneRun.run_insts_lane_local). Qed.
+
+(** composition with C06_launcher_source_is_model / C06_gpu_threads_cover: a kernel whose out-of-range threads do nothing, run
+    over the thread sequence of the TRANSLATED launcher, = the CPU loop nest `for y in range(Y): for l in range(X)` *)
+Theorem C06_launch_is_cpu_loop : forall A (f : nat -> nat -> A -> A) X Y bx by_ st0 (st : list A),
+  0 < bx -> 0 < by_ -> List.length st <= X -> (forall x y a, (X <= x \/ Y <= y) -> f x y a = a) ->
+  run_insts f (fst (launch_src (cdiv X bx) (cdiv Y by_) bx by_ st0)) st = run_insts f (cpu_order (seq 0 Y) X) st.
+Proof. exact (@KV.Proofs.WaveDriversProofs.launch_src_is_cpu_loop). Qed.
+Theorem C06_level_order_is_cpu_order : forall op_start n_ops n_sims,
+  LevelEvalCpuSrc.order_src op_start n_ops 0 n_sims = cpu_order (seq op_start n_ops) n_sims.
+Proof. exact KV.Proofs.WaveDriversProofs.level_order_is_cpu_order. Qed.
+
+(** ASSIGN (s_to_c).  One thread of wave_assign_gpu = one step of the model's s_to_c on the lane's column ... *)
+Theorem C06_assign_gpu_instance_is_model : forall so nsims x y L, y < so_slen so -> x < nsims ->
+  WaveAssignGpuSrc.inst_src (so_locs so) (Z.of_nat (so_nlines so + 3)) (Z.of_nat (so_slen so)) (Z.of_nat nsims) (Z.of_nat x) (Z.of_nat y) L
+  = set_c L (KV.Proofs.WaveDriversProofs.assign_step so (l_c L) y (KV.Proofs.WaveDriversProofs.s_dec_gpu L y)).
+Proof. exact KV.Proofs.WaveDriversProofs.assign_gpu_inst_is_model. Qed.
+(** ... all threads of a lane in launch order = Model/WaveSimModel.v [w_s_to_c] ... *)
+Theorem C06_assign_gpu_lane_is_model : forall so nsims x L, x < nsims ->
+  fold_left (fun L' y => WaveAssignGpuSrc.inst_src (so_locs so) (Z.of_nat (so_nlines so + 3)) (Z.of_nat (so_slen so)) (Z.of_nat nsims)
+                            (Z.of_nat x) (Z.of_nat y) L') (seq 0 (so_slen so)) L
+  = set_c L (w_s_to_c so (map (KV.Proofs.WaveDriversProofs.s_dec_gpu L) (seq 0 (so_slen so))) (l_c L)).
+Proof. exact KV.Proofs.WaveDriversProofs.assign_gpu_lane_is_model. Qed.
+(** ... and WaveSimCuda.s_to_c (the kernel over the translated launcher's whole thread sequence, block (32, 16)) leaves EVERY lane as
+    the three vectorised passes of WaveSim.s_to_c do -- given that the three-entry windows of the PI / PPI slots are pairwise
+    disjoint (each slot is its own allocation of c_caps_min = 4 entries) and the stimulus values are read alike by `!= 0` and
+    `>= 0.5` (true for 0 and 1) *)
+Theorem C06_assign_cpu_gpu_same_source_model : forall so n_io st0 (st : list lane),
+  n_io <= so_slen so -> KV.Proofs.WaveDriversProofs.windows_disjoint so -> Forall (KV.Proofs.WaveDriversProofs.s_bits_ok so) st ->
+  let nsims := List.length st in
+  run_insts (fun x y L => WaveAssignGpuSrc.inst_src (so_locs so) (Z.of_nat (so_nlines so + 3)) (Z.of_nat (so_slen so)) (Z.of_nat nsims)
+                            (Z.of_nat x) (Z.of_nat y) L)
+            (fst (launch_src (cdiv nsims 32) (cdiv (so_slen so) 16) 32 16 st0)) st
+  = map (s_to_c_cpu (so_locs so) (Z.of_nat (so_nlines so + 3)) n_io (so_slen so)) st.
+Proof. exact KV.Proofs.WaveDriversProofs.assign_launch_is_cpu. Qed.
+Theorem C06_assign_hyps_example :
+  KV.Proofs.WaveDriversProofs.windows_disjoint KV.Proofs.WaveDriversProofs.ex_so /\
+  KV.Proofs.WaveDriversProofs.s_bits_ok KV.Proofs.WaveDriversProofs.ex_so KV.Proofs.WaveDriversProofs.ex_lane /\
+  l_c (s_to_c_cpu (so_locs KV.Proofs.WaveDriversProofs.ex_so) 3 1 2 KV.Proofs.WaveDriversProofs.ex_lane) =
+    [Fin 1; MaxInf; MaxInf; MaxInf; MaxInf; MaxInf; MaxInf; MaxInf; MaxInf; MaxInf; MaxInf; MaxInf;
+     Fin 5; MaxInf; MaxInf; MaxInf; MinInf; Fin 7; MaxInf; MaxInf].
+Proof. exact KV.Proofs.WaveDriversProofs.s_to_c_hyps_example. Qed.
+(** the condition on the stimulus values is needed: -1 is a 1 for the CPU statement and a 0 for the GPU kernel *)
+Theorem C06_assign_bits_needed :
+  s_to_c_cpu (so_locs KV.Proofs.WaveDriversProofs.ex_so) 3 1 2 KV.Proofs.WaveDriversProofs.ex_lane_neg <>
+  fold_left (fun L' y => WaveAssignGpuSrc.inst_src (so_locs KV.Proofs.WaveDriversProofs.ex_so) 3 2 1 0 (Z.of_nat y) L') (seq 0 2)
+            KV.Proofs.WaveDriversProofs.ex_lane_neg.
+Proof. exact KV.Proofs.WaveDriversProofs.s_to_c_bits_needed. Qed.
+
+(** STATE TRANSFER (s_ppo_to_ppi) -- PARTIAL.  Proved: one thread of ppo_to_ppi_gpu at a position with both slots = the three stores
+    of the CPU statements at that position, every other thread does nothing.  NOT proved as one theorem: that the three
+    vectorised passes of WaveSim.s_ppo_to_ppi over its position list equal the per-position stores (the argument of
+    C06_assign_cpu_gpu_same_source_model: stores to pairwise different places commute); and the position lists DIFFER --
+    C06_state_transfer_io_position_refuted. *)
+Theorem C06_state_transfer_gpu_instance_partial : forall locs t ppi ppo slen nsims x y L, (y < slen)%Z -> (x < nsims)%Z ->
+  PpoToPpiGpuSrc.inst_src locs t ppi ppo slen nsims x y L =
+  if ((0 <=? zrd (-1) locs (ppi + y)) && (0 <=? zrd (-1) locs (ppo + y)))%Z
+  then (let L := s_wr L 0 y (s_rd L 2 y) in let L := s_wr L 1 y t in s_wr L 2 y (s_rd L 8 y)) else L.
+Proof. exact KV.Proofs.WaveDriversProofs.ppo_to_ppi_gpu_inst. Qed.
+Theorem C06_state_transfer_gpu_out_of_range : forall locs t ppi ppo slen nsims x y L, (slen <= y \/ nsims <= x)%Z ->
+  PpoToPpiGpuSrc.inst_src locs t ppi ppo slen nsims x y L = L.
+Proof. exact KV.Proofs.WaveDriversProofs.ppo_to_ppi_gpu_out_of_range. Qed.
+(** FINDING (D37): at a PRIMARY-IO position that owns both a PI and a PO slot the GPU kernel transfers, the CPU method does not *)
+Theorem C06_state_transfer_io_position_refuted :
+  s_ppo_to_ppi_cpu (so_locs KV.Proofs.WaveDriversProofs.ex_so) 3 5 2 2 (Fin 9) KV.Proofs.WaveDriversProofs.ex_lane <>
+  fold_left (fun L' y => PpoToPpiGpuSrc.inst_src (so_locs KV.Proofs.WaveDriversProofs.ex_so) (Fin 9) 3 5 2 1 0 (Z.of_nat y) L') (seq 0 2)
+            KV.Proofs.WaveDriversProofs.ex_lane.
+Proof. exact KV.Proofs.WaveDriversProofs.ppo_to_ppi_io_position_refuted. Qed.
+Theorem C06_state_transfer_example :
+  s_ppo_to_ppi_cpu (so_locs KV.Proofs.WaveDriversProofs.ex_so) 3 5 0 2 (Fin 9) KV.Proofs.WaveDriversProofs.ex_lane =
+  fold_left (fun L' y => PpoToPpiGpuSrc.inst_src (so_locs KV.Proofs.WaveDriversProofs.ex_so) (Fin 9) 3 5 2 1 0 (Z.of_nat y) L') (seq 0 2)
+            KV.Proofs.WaveDriversProofs.ex_lane /\
+  l_s (s_ppo_to_ppi_cpu (so_locs KV.Proofs.WaveDriversProofs.ex_so) 3 5 0 2 (Fin 9) KV.Proofs.WaveDriversProofs.ex_lane) =
+    KV.Proofs.WaveDriversProofs.ex_rows [Fin 1; Fin 1] [Fin 9; Fin 7] [Fin 1; Fin 0] [Fin 1; Fin 1].
+Proof. exact KV.Proofs.WaveDriversProofs.ppo_to_ppi_state_position_example. Qed.
+
+(** PROPAGATION + ACCUMULATION (c_prop).  One iteration (op_idx, sim) of level_eval_cpu and thread (x, y) of wave_eval_gpu (lane
+    sim_start + x, op op_start + y) are BOTH the model step: [wprop1] (the merge kernel on the op's regions, with the dataset the
+    lane selects) followed by [addZ_at] of nrise * a_wr + nfall * a_wf into abuf[a_loc] if a_loc >= 0; hence they are equal
+    (`abuf[a_loc, sim] += v` = `cuda.atomic.add(abuf, (a_loc, sim), v)`).  Integer weights and unbounded accumulators: a_ctrl is
+    an integer array and abuf is int32 -- float weights / int32 wrap-around are outside the model.  The output region must
+    hold >= 2 entries (SimOps allocates >= 4). *)
+Theorem C06_eval_cpu_instance_is_model : forall so ops D seed sim i o a L,
+  nth i ops [] = KV.Proofs.WaveDriversProofs.op_row o a -> KV.Proofs.WaveDriversProofs.out_cap_ok so (l_c L) o ->
+  LevelEvalCpuSrc.inst_src ops (so_locs so) (KV.Proofs.WaveDriversProofs.caps_z so) D seed sim (Z.of_nat i) L
+  = KV.Proofs.WaveDriversProofs.lane_eval_step so D seed o a L.
+Proof. exact KV.Proofs.WaveDriversProofs.level_eval_cpu_inst_is_model. Qed.
+Theorem C06_accumulate_cpu_gpu_same_source_model : forall so ops D seed op_start n_ops sim_start n_sims x y o a L,
+  x < n_sims -> y < n_ops -> nth (op_start + y) ops [] = KV.Proofs.WaveDriversProofs.op_row o a ->
+  KV.Proofs.WaveDriversProofs.out_cap_ok so (l_c L) o ->
+  WaveEvalGpuSrc.inst_src ops (so_locs so) (KV.Proofs.WaveDriversProofs.caps_z so) D (Z.of_nat op_start) (Z.of_nat (op_start + n_ops))
+    (Z.of_nat sim_start) (Z.of_nat (sim_start + n_sims)) seed (Z.of_nat x) (Z.of_nat y) L
+  = LevelEvalCpuSrc.inst_src ops (so_locs so) (KV.Proofs.WaveDriversProofs.caps_z so) D seed (Z.of_nat (sim_start + x)) (Z.of_nat (op_start + y)) L.
+Proof. exact KV.Proofs.WaveDriversProofs.eval_cpu_gpu_same_inst. Qed.
+Theorem C06_eval_gpu_out_of_range : forall ops locs caps D op_start op_stop sim_start sim_stop seed x y L,
+  (sim_stop <= sim_start + x \/ op_stop <= op_start + y)%Z ->
+  WaveEvalGpuSrc.inst_src ops locs caps D op_start op_stop sim_start sim_stop seed x y L = Some L.
+Proof. exact KV.Proofs.WaveDriversProofs.eval_gpu_inst_out_of_range. Qed.
+Theorem C06_eval_instance_example :
+  KV.Proofs.WaveDriversProofs.out_cap_ok KV.Proofs.WaveDriversProofs.ex_so (l_c KV.Proofs.WaveDriversProofs.ex_lane) KV.Proofs.WaveDriversProofs.ex_op /\
+  exists L', LevelEvalCpuSrc.inst_src [KV.Proofs.WaveDriversProofs.op_row KV.Proofs.WaveDriversProofs.ex_op (0, 3, 5)%Z]
+               (so_locs KV.Proofs.WaveDriversProofs.ex_so) (KV.Proofs.WaveDriversProofs.caps_z KV.Proofs.WaveDriversProofs.ex_so)
+               [[dzero; dzero; dzero]] 1 0 0 KV.Proofs.WaveDriversProofs.ex_lane = Some L' /\
+             l_abuf L' = [3%Z] /\ firstn 8 (l_c L') = [Fin 1; MaxInf; MaxInf; MaxInf; Fin 1; MaxInf; MaxInf; MaxInf] /\
+             WaveEvalGpuSrc.inst_src [KV.Proofs.WaveDriversProofs.op_row KV.Proofs.WaveDriversProofs.ex_op (0, 3, 5)%Z]
+               (so_locs KV.Proofs.WaveDriversProofs.ex_so) (KV.Proofs.WaveDriversProofs.caps_z KV.Proofs.WaveDriversProofs.ex_so)
+               [[dzero; dzero; dzero]] 0 1 0 1 1 0 0 KV.Proofs.WaveDriversProofs.ex_lane = Some L'.
+Proof. exact KV.Proofs.WaveDriversProofs.eval_inst_example. Qed.
+
+(** CAPTURE (c_to_s), sd = 0.  Thread (x, y) of wave_capture_gpu -- launch prefix, the translated capture loop, the eight stores
+    s[3..10, y, vector] -- = one iteration (s_loc = y, vector) of the CPU loop (wave_capture_cpu's eight values assigned to
+    s[3:, s_loc, vector]) wherever the position owns a PPO slot; elsewhere the thread does nothing and the CPU loop does not visit *)
+Theorem C06_capture_writeback_cpu_gpu_same_source_model : forall so nsims tcap x y L, x < nsims ->
+  (0 <= zrd (-1) (so_locs so) (Z.of_nat (so_nlines so + 3 + so_slen so) + Z.of_nat y))%Z ->
+  WaveCaptureGpuDrvSrc.inst_src (so_locs so) (KV.Proofs.WaveDriversProofs.caps_z so) tcap (Z.of_nat (so_nlines so + 3 + so_slen so))
+    (Z.of_nat nsims) (Z.of_nat x) (Z.of_nat y) L
+  = c_to_s_cpu_inst WaveCaptureCpuSrc.capture_src (so_locs so) (KV.Proofs.WaveDriversProofs.caps_z so)
+      (Z.of_nat (so_nlines so + 3 + so_slen so)) tcap (Z.of_nat y) L.
+Proof. exact KV.Proofs.WaveDriversProofs.capture_cpu_gpu_same_inst. Qed.
+Theorem C06_capture_gpu_no_slot : forall so nsims tcap x y L,
+  (zrd (-1) (so_locs so) (Z.of_nat (so_nlines so + 3 + so_slen so) + Z.of_nat y) < 0)%Z ->
+  WaveCaptureGpuDrvSrc.inst_src (so_locs so) (KV.Proofs.WaveDriversProofs.caps_z so) tcap (Z.of_nat (so_nlines so + 3 + so_slen so))
+    (Z.of_nat nsims) (Z.of_nat x) (Z.of_nat y) L = L.
+Proof. exact KV.Proofs.WaveDriversProofs.capture_gpu_inst_no_slot. Qed.
+Theorem C06_capture_instance_example :
+  l_s (WaveCaptureGpuDrvSrc.inst_src (so_locs KV.Proofs.WaveDriversProofs.ex_so) (KV.Proofs.WaveDriversProofs.caps_z KV.Proofs.WaveDriversProofs.ex_so)
+         (Fin 3) 5 1 0 0
+         (set_c KV.Proofs.WaveDriversProofs.ex_lane ([Fin 1; MaxInf; MaxInf; MaxInf; Fin 2; MaxInf; MaxInf; MaxInf] ++ repeat MaxInf 12)))
+  = [[Fin 0; Fin 1]; [Fin 5; Fin 7]; [Fin 1; Fin 0]; [Fin 0; Fin 0]; [Fin 2; Fin 0]; [Fin 2; Fin 0]; [Fin 1; Fin 0]; [Fin 1; Fin 0];
+     [Fin 1; Fin 1]; [Fin 0; Fin 0]; [Fin 0; Fin 0]].
+Proof. exact KV.Proofs.WaveDriversProofs.capture_inst_example. Qed.
